@@ -5,22 +5,31 @@
 #include <cstdlib>
 #include <cstring>
 #include <algorithm>
+#include <sys/mman.h>
 
 // ---------------------------------------------------------------- pool
 static const size_t POOL_CANARY = 16;
+static char *g_pool_region = nullptr;
+static const size_t POOL_REGION = 1 << 16;
 void Pool::init() {
     if (!ptr.empty()) return;
     static const char *vals[] = {"ck", "CK", "name", "", "a", "A", "b", "key/with~", "a/b", "m~n", "0", "1",
                                  "long-constant-key-0123456789-abcdefghijklmnopqrstuvwxyz", "\xc3\xa9t\xc3\xa9", "q\"uote", "tab\there"};
+    // one private mapping, read-only once it is filled: the library may read these bytes, never write them
+    g_pool_region = (char *)mmap(nullptr, POOL_REGION, PROT_READ | PROT_WRITE, MAP_PRIVATE | MAP_ANONYMOUS, -1, 0);
+    if (g_pool_region == (char *)MAP_FAILED) { perror("mmap pool"); abort(); }
+    size_t used = 0;
     for (const char *v : vals) {
         size_t n = strlen(v);
-        char *blk = (char *)malloc(POOL_CANARY * 2 + n + 1);
+        char *blk = g_pool_region + used;
+        used += (POOL_CANARY * 2 + n + 1 + 15) & ~(size_t)15;
         memset(blk, 0x5C, POOL_CANARY);
         memcpy(blk + POOL_CANARY, v, n + 1);
         memset(blk + POOL_CANARY + n + 1, 0x5C, POOL_CANARY);
         ptr.push_back(blk + POOL_CANARY);
         val.push_back(std::string(v));
     }
+    mprotect(g_pool_region, POOL_REGION, PROT_READ);
 }
 bool Pool::intact() const {
     for (size_t i = 0; i < ptr.size(); i++) {
@@ -35,6 +44,7 @@ bool Pool::intact() const {
     return true;
 }
 bool Pool::owns(const void *q) const {
+    if (borrowed::contains(q)) return true;
     for (size_t i = 0; i < ptr.size(); i++) {
         const char *p = ptr[i] - POOL_CANARY;
         if ((const char *)q >= p && (const char *)q < p + POOL_CANARY * 2 + val[i].size() + 1) return true;
@@ -46,6 +56,56 @@ int Pool::find(const void *q) const {
     return -1;
 }
 Pool &pool() { static Pool p; p.init(); return p; }
+
+namespace borrowed {
+static char *g_region = nullptr;
+static const size_t REGION = (size_t)16 << 20;
+static size_t g_used = 0, g_sealed_upto = 0;
+static bool g_open = false;
+static void init() {
+    if (g_region) return;
+    g_region = (char *)mmap(nullptr, REGION, PROT_READ, MAP_PRIVATE | MAP_ANONYMOUS | MAP_NORESERVE, -1, 0);
+    if (g_region == (char *)MAP_FAILED) { perror("mmap borrowed"); abort(); }
+}
+void reset_run() {
+    init();
+    if (g_used) {
+        mprotect(g_region, (g_used + 4095) & ~(size_t)4095, PROT_READ | PROT_WRITE);
+        if (g_used > (1u << 20)) madvise(g_region, g_used, MADV_DONTNEED);
+        mprotect(g_region, (g_used + 4095) & ~(size_t)4095, PROT_READ);
+    }
+    g_used = 0; g_sealed_upto = 0; g_open = false;
+}
+void open() {
+    init();
+    g_open = true;
+    g_sealed_upto = g_used & ~(size_t)4095;   // pages from here on become writable until seal()
+    size_t room = REGION - g_sealed_upto;
+    size_t span = room < ((size_t)1 << 20) ? room : ((size_t)1 << 20);
+    mprotect(g_region + g_sealed_upto, span, PROT_READ | PROT_WRITE);
+}
+const char *put(const std::string &s) {
+    if (!g_open) abort();
+    size_t need = s.size() + 1;
+    if (g_used + need > g_sealed_upto + ((size_t)1 << 20) || g_used + need > REGION) return nullptr;
+    char *p = g_region + g_used;
+    memcpy(p, s.c_str(), need);   // embedded zero bytes end the C string, as for any caller
+    g_used += need;
+    return p;
+}
+void seal() {
+    if (!g_open) return;
+    size_t room = REGION - g_sealed_upto;
+    size_t span = room < ((size_t)1 << 20) ? room : ((size_t)1 << 20);
+    mprotect(g_region + g_sealed_upto, span, PROT_READ);
+    g_open = false;
+}
+bool contains(const void *p) {
+    const char *q = (const char *)p;
+    if (g_region && q >= g_region && q < g_region + REGION) return true;
+    return g_pool_region && q >= g_pool_region && q < g_pool_region + POOL_REGION;
+}
+}  // namespace borrowed
 
 // ---------------------------------------------------------------- basics
 MVal *mv_new(int type) { MVal *m = new MVal(); m->type = type; return m; }
